@@ -10,7 +10,7 @@ CONSTANTS
   DuplModes <- D_None
   PosBoxB = 8
   CertBoxY = 3
-  SearchCap = 20000
+  SearchCap = 600
   CheckBox = 3
 INVARIANT TypeOK
 INVARIANT NullBasisSound
